@@ -134,6 +134,11 @@ Save(k) ==      \* persister.save_checkpoint(process, tag)
   /\ last' = Did(Op("save", k), NoRes, NoRes, NoRes)
   /\ UNCHANGED <<live, dev>>
 
+SaveFail(k) ==  \* save_checkpoint of a live process that cannot be bundled right now (Bundle(process) raises TypeError):
+                \* both persisters refuse with the same error; nothing is stored and, above all, nothing is lost
+  /\ last' = Did(Op("savefail", k), Raise("TypeError"), Raise("TypeError"), Raise("TypeError"))
+  /\ UNCHANGED <<live, store, mem, heap, files, dev>>
+
 Load(k) ==      \* persister.load_checkpoint(pid, tag)
   LET m == MemLoad(mem, heap, k)  f == FLoad(kind, files, k) IN
   /\ last' = Did(Op("load", k), AbsLoad(store, k), m, f)
@@ -176,7 +181,7 @@ Resume(k) ==    \* a process is recreated from the loaded bundle (of each persis
 Next == /\ n < L
         /\ n' = n + 1
         /\ UNCHANGED kind
-        /\ \/ \E k \in Keys : Save(k) \/ Load(k) \/ Delete(k) \/ Resume(k)
+        /\ \/ \E k \in Keys : Save(k) \/ SaveFail(k) \/ Load(k) \/ Delete(k) \/ Resume(k)
            \/ \E p \in Procs : ListP(p) \/ DeleteP(p) \/ Progress(p)
            \/ List
 Spec == Init /\ [][Next]_vars
